@@ -1,8 +1,18 @@
 """C06 - Access rights follow key relationships."""
-from specs import keys
+from specs import keys, snapbody, restore, gc
 
 LEVEL = 'proof'
-UNITS = [keys.init_unit('C06'), keys.add_key_inner_unit('C06'), keys.add_key_unit('C06'), keys.instantiate_key_unit('C06'), keys.unlock_unit('C06')]
+UNITS = [keys.unlock_unit('C06'), keys.instantiate_key_unit('C06'), keys.init_unit('C06'), keys.add_key_inner_unit('C06'), keys.add_key_unit('C06'),
+         snapbody.download_snapshot_unit('C06'), snapbody.decrypt_body_unit('C06'), restore.select_unit('C06'), gc.delete_unit('C06'), gc.clean_unit('C06')]
 BOUNDED = []
-TRUSTED = []
-ASSUMPTIONS = []
+TRUSTED = [
+    'vf symbolic executor (/verif/vf): encoding of the Python subset (DESIGN 2.2)',
+    'z3 5.1 (API + z3-new CLI), cvc5 1.0.3 (strings)',
+]
+ASSUMPTIONS = ['A-aead: decryption under a key derived from a different password or salt fails (KDF injective in the password: assumed)', 'independent families: MAC under different mac_params never collide (A-collision), so the tag check separates them', 'keys emitted by replicat carry an encrypted private section (C05.sink.key)']
+MANIFEST = {
+    'text': "Deductive proof of the gating code: an encrypted repository is unlocked only through a successful decryption of the key's private section with the password-derived key; bodies with a foreign tag are never loaded; a shared-key user gets the chunk table but data=None; restore plans only readable bodies; delete refuses names whose data is unreadable or unknown before any deletion; clean deletes only objects whose tag verifies under the caller's MAC key; add-key copies the caller's private section only for shared keys and protects the new key with the new password and a new salt.",
+    'note': 'Trusted: vf engine, SMT solvers, cryptographic assumptions.',
+    'technique': 'contract-based deductive verification: sidecar contracts + loop invariants on the real functions, VCs by symbolic execution of the AST, discharged by z3/cvc5',
+    'design_ref': 'DESIGN.md 6/C06',
+}
